@@ -62,6 +62,54 @@ class _VSelector:
         return []
 
 
+class VirtualExecutor:
+    """an executor for AsyncPathIO whose jobs take VIRTUAL time: the function runs at once (in the loop's thread), its
+    result is handed over `delay` virtual seconds later - so a slow disk can outlast `path_timeout` under the
+    virtual clock.  `slow_at`: {submission index: seconds}; `slow_name`: {function name: seconds}."""
+
+    virtual = True
+
+    def __init__(self, loop):
+        import concurrent.futures as cf
+
+        self._cf = cf
+        self.loop = loop
+        self.n = 0
+        self.log = []
+        self.slow_at = {}
+        self.slow_name = {}
+        self.delay = 0.0
+
+    def submit(self, fn, *args, **kwargs):
+        f = self._cf.Future()
+        name = getattr(getattr(fn, "func", fn), "__name__", "?")
+        k = self.n
+        self.n += 1
+        self.log.append(name)
+        try:
+            res, exc = fn(*args, **kwargs), None
+        except BaseException as e:  # noqa
+            res, exc = None, e
+        d = self.slow_at.get(k, self.slow_name.get(name, self.delay))
+
+        def deliver():
+            if f.cancelled():
+                return
+            if exc is not None:
+                f.set_exception(exc)
+            else:
+                f.set_result(res)
+
+        if d:
+            self.loop.call_later(d, deliver)
+        else:
+            self.loop.call_soon(deliver)
+        return f
+
+    def shutdown(self, wait=True, **kw):
+        pass
+
+
 class SeqTask(asyncio.Task):
     """a Task whose hash is its creation number, not its address: the iteration order of every set of tasks
     (`done`, `pending | extra_workers`, the tasks cancelled at teardown) is then a function of the run and of the
@@ -106,6 +154,8 @@ class VLoop(asyncio.SelectorEventLoop):
         return self._vtime
 
     def run_in_executor(self, executor, func, *args):
+        if getattr(executor, "virtual", False):
+            return super().run_in_executor(executor, func, *args)  # takes virtual time: the clock goes on
         self._executor_jobs += 1
         fut = super().run_in_executor(executor, func, *args)
 
